@@ -65,6 +65,7 @@ def r14_1(ctx, R):
                 fb = c13.find_budget(ctx, R, d, fl, head, body, inside)
                 if fb is not None:
                     budget_edges.add((fb["sb"], fb["tgt"]))
+                    budget_edges.update(fb.get("all_edges", []))
             for (h2, body2, nbb, tgt, lo, hi) in c13.range_budgets(ctx, d):
                 for sb_ in body2:
                     if tgt in d.normal_succ(sb_) and tgt not in body2:
@@ -236,6 +237,12 @@ def r14_4(ctx, R):
         for sbb, st, sfn in ss:
             idx = fl.operand_expr(st["args"][-1])
             rng = None
+            if R.is_mark_all(callee_body(ctx.facts, sfn)):
+                # MARK-ALL of the list: the range is 0..header.len, i.e. 0..(the capacity the list was constructed with here)
+                recv = strip_refs(idx)
+                for c in [recv] + expr_calls(recv):
+                    if c[0] == "call" and (c[1] or "").endswith("::new") and c[1] in ctx.facts.bodies and c[2]:
+                        rng = ("agg", "core::ops::Range::Range", (("const", "usize", "0"), c[2][0]))
             for c in expr_calls(idx):
                 if c[1] and "Range" in c[1] and c[1].endswith("::next"):
                     it = strip_refs(c[2][0])
